@@ -188,6 +188,10 @@ fn main() {
                 bad(&mut t, format!("set built by {route} for bits {b:06b} differs (==) from |= route"), case.clone());
             }
         }
+        // the iterator through the whole (double-ended) Iterator protocol
+        if let Err(e) = bridge::iterator_protocol("KindSet::iter()", || s.iter(), &members(b)).and_then(|()| bridge::double_ended_protocol("KindSet::iter()", || s.iter(), &members(b))).and_then(|()| bridge::iterator_protocol("KindSet::into_iter()", || s.into_iter(), &members(b))) {
+            bad(&mut t, e, case.clone());
+        }
         let fwd: Vec<Kind> = s.iter().collect();
         let exp = members(b);
         if fwd != exp {
